@@ -190,8 +190,15 @@ static Loaded load(const RefDef& d) {
   std::istringstream is(d.text);
   l.result = l.map->readFromStream(&is, "c09", 0, false, nullptr, &l.error);
   R.transitions++;
+  if (l.result == RESULT_OK) {
+    // a definition never lives alone in a map: an unrelated neighbour (other circuit, destination and command) with
+    // a 7 byte ID makes the lookup probe every ID length from 7 downwards, as in a real configuration
+    std::istringstream nb("\nr,nb,longid,,,50,b5ff,01020304050607,,,UCH\n");
+    string nerr;
+    if (l.map->readFromStream(&nb, "c09nb", 0, false, nullptr, &nerr) != RESULT_OK) { fprintf(stderr, "c09: neighbour definition refused: %s\n", nerr.c_str()); exit(3); }
+  }
   std::deque<Message*> q;
-  l.map->findAll("", "", "*", false, true, true, true, true, false, 0, 0, false, &q);
+  l.map->findAll("c", "msg", "*", false, true, true, true, true, false, 0, 0, false, &q);
   l.msgs.assign(q.begin(), q.end());
   return l;
 }
